@@ -6,7 +6,7 @@ from datetime import datetime, timedelta, timezone
 from common import *  # noqa
 import dbtie
 
-PROFILE = {'scenario_also': ['raising_test_update'], 'p_write': 0.6, 'raise_bias': True, "scenario_pref": ["torn_update", "bad_batch", "shared_maps", "torn_update"]}
+PROFILE = {'scenario_also': ['torn_gap', 'raising_test_update'], 'p_write': 0.6, 'raise_bias': True, "scenario_pref": ["torn_update", "bad_batch", "shared_maps", "torn_update"]}
 UTC = timezone.utc
 T0 = datetime(2020, 1, 1, tzinfo=UTC)
 
